@@ -146,6 +146,12 @@ def generate(seed, tier, idx=0):
                 key = "%d:%d:%d" % (l, rng.randrange(n_types) + (100 if two and rng.random() < 0.4 else 0),
                                     rng.randint(1, 3))
                 scripts[key] = gen_ops(rng, rng.randint(1, 3), n_types, n_list, 1, two)
+                if rng.random() < 0.12:
+                    # the listener fails: the exception reaches whoever fired
+                    scripts[key].insert(rng.randint(0, len(scripts[key])),
+                                        ["raise", rng.choice(["KeyError", "ValueError",
+                                                              "RuntimeError", "LookupError",
+                                                              "StopIteration", "IndexError"])])
     ops = gen_ops(rng, rng.choice([3, 5, 8, 12, 20, 30, 40]) if rng.random() > 0.01
                   else rng.choice([150, 400]), n_types, n_list, 0, two)
     case = {"kind": "history", "n_types": n_types, "n_listeners": n_list,
@@ -180,6 +186,19 @@ class Listener(EventListener):
         # notify() has no specified return value: whatever a listener returns
         # (e.g. 'return self.handle(event)') must not matter to the producer
         return self.world.returns[self.idx % len(self.world.returns)]
+
+
+class ListenerFailure(Exception):
+    pass
+
+
+# failures of listeners: each class also derives from a builtin, so that library code
+# which catches that builtin for its own purposes (except KeyError: ...) sees it
+LISTENER_EXC = {n: type("Listener" + n, (ListenerFailure, getattr(__builtins__, n)
+                                         if not isinstance(__builtins__, dict)
+                                         else __builtins__[n]), {})
+                for n in ("KeyError", "ValueError", "RuntimeError", "LookupError",
+                          "StopIteration", "IndexError")}
 
 
 class InboxListener(Listener):
@@ -234,12 +253,24 @@ class World:
         if script:
             self.depth += 1
             self.nested += 1
-            for op in script:
-                self.apply(op)
-            self.depth -= 1
+            try:
+                for op in script:
+                    self.apply(op)
+            finally:
+                self.depth -= 1
+
+    def apply_top(self, op):
+        """A top-level operation: an exception raised by a listener travels through
+        every fire in progress and arrives here."""
+        try:
+            self.apply(op)
+        except ListenerFailure as e:
+            self.log.append(("raised", type(e).__name__))
 
     def apply(self, op):
         name = op[0]
+        if name == "raise":
+            raise LISTENER_EXC[op[1]]("listener failed")
         tix = op[2] if name == "remove_all" else (op[1] if name in ("add", "remove", "fire",
                                                                     "fire_timed") else 0)
         pi = 1 if isinstance(tix, int) and tix >= 100 else 0
@@ -337,16 +368,26 @@ class RefWorld:
             script = self.case["scripts"].get("%d:%d:%d" % (l, t, k))
             if script:
                 self.depth += 1
-                for op in script:
-                    if op[0] in ("fire", "fire_timed") and self.depth < 3:
-                        self.reentrant += 1
-                    elif op[0] in ("add", "remove", "remove_all"):
-                        self.reentrant += 1
-                    self.apply(op)
-                self.depth -= 1
+                try:
+                    for op in script:
+                        if op[0] in ("fire", "fire_timed") and self.depth < 3:
+                            self.reentrant += 1
+                        elif op[0] in ("add", "remove", "remove_all"):
+                            self.reentrant += 1
+                        self.apply(op)
+                finally:
+                    self.depth -= 1
+
+    def apply_top(self, op):
+        try:
+            self.apply(op)
+        except ListenerFailure as e:
+            self.log.append(("raised", type(e).__name__))
 
     def apply(self, op):
         name = op[0]
+        if name == "raise":
+            raise LISTENER_EXC[op[1]]("listener failed")
         if name == "add":
             lst = self.subs.setdefault(op[1], [])
             if op[2] not in lst:
@@ -463,8 +504,8 @@ def execute(case):
         ref = RefWorld(case)
         try:
             for i, op in enumerate(case["ops"]):
-                w.apply(op)
-                ref.apply(op)
+                w.apply_top(op)
+                ref.apply_top(op)
                 if w.log != ref.log:
                     j = next((k for k in range(min(len(w.log), len(ref.log)))
                               if w.log[k] != ref.log[k]), min(len(w.log), len(ref.log)))
